@@ -12,7 +12,7 @@ def units(tier):
 
 META = {
     "level_if_complete": "other",
-    "functions_under_contract": [],
+    "functions_under_contract": ['linear_operator.utils.lanczos.lanczos_tridiag', 'linear_operator.utils.lanczos.lanczos_tridiag_to_diag', 'linear_operator.utils.lanczos._postprocess_lanczos_root_inv_decomp', 'RootDecomposition.forward', 'Diagonalization.forward', "LinearOperator.root_decomposition/root_inv_decomposition/diagonalization (method='lanczos')"],
     "trusted_base": ["real torch float64 dense linear algebra (solve, eigh, cholesky, logdet) as the oracle"],
     "assumptions": ["bounded tier only"] + list(RTC_META.get("assumptions", [])),
     "explanation": RTC_META["explanation"],
